@@ -37,9 +37,14 @@ PROPS = {
                 rule="Scenario: sender stalled in the transport or slow; plain and Ctx entry points with background / cancelled / expiring contexts; optional concurrent Close."),
 }
 
+PROPS["C05"] = dict(T(16000, 40, 1000000, 900),
+    text="1-4 concurrent closers of seven kinds (user task, handler on a user event, handler on an inbound message, transport read failure, transport write failure, holder.CloseAll, Bootstrap.Shutdown) with distinct errors against in-flight reads and writes on a channel created through the real Bootstrap.Connect: active once and complete before Connect returns and before the first read, reads strictly sequential, transport closed and inactive delivered exactly once, inactive carries the argument of the Close call whose task closed the transport, IsActive false after any Close returned, context cancelled after the effective Close returned, read loop gone at quiescence.",
+    note=NOTE,
+    rule="Scenario: real Bootstrap + channelHolder over the simulated factory; closers drawn from seven kinds; 0-2 writers; 0-2 inbound chunks.")
+
 NOT_APPLICABLE = {
     "C03": "Pipeline order and routing are pure functions of the build program and the event: the handler list is immutable after build and traversed by whichever goroutine delivers the event; no schedule, clock, fault or I/O behaviour enters. Simulation would only be relabelled input generation (DESIGN.md section 3, C03).",
     "C19": "pool.Pool adds no concurrency, time or I/O of its own: shard choice is arithmetic on sizes, mutual exclusion is entirely sync.Pool's, which the simulator has to replace by a stub, so simulated concurrent use would exercise the stub and not the repository (DESIGN.md section 3, C19).",
 }
-for _p in ["C04", "C05", "C07", "C08", "C09", "C12", "C13", "C14", "C15", "C16", "C17", "C20"]:
+for _p in ["C04", "C07", "C08", "C09", "C12", "C13", "C14", "C15", "C16", "C17", "C20"]:
     NOT_APPLICABLE.setdefault(_p, "check under construction in this session (planned as applicable, DESIGN.md section 3); not claimed until it runs clean")
